@@ -20,6 +20,8 @@ type c09Case struct {
 	Route   string       `json:"route"` // output-md | mkdir-md | mkdir-root
 	Massive bool         `json:"massive,omitempty"`
 	Exts    []string     `json:"exts,omitempty"`
+	Missing bool         `json:"missing,omitempty"` // the target directory given with WithTargetDir does not exist yet
+	PreOps  []string     `json:"preOps,omitempty"`
 }
 
 func init() { registerReplay("c09", c09Check) }
@@ -45,6 +47,13 @@ func c09Check(c c09Case) string {
 	dry.Opts.Massive = c.Massive
 	dry.FS = &ops.FSSpec{}
 	dry.Opts.TargetOpt = "default" // the working directory is the target, as on the command line
+	if c.Missing {
+		dry.FS.TargetMissing = true
+		dry.Opts.TargetOpt = "" // absolute path of a directory that does not exist yet (gtree mkdir --dry-run --target-dir new)
+	}
+	if c.Route == "mkdir-root" {
+		dry.PreOps = c.PreOps
+	}
 	dres := pool("chroot").Run(&dry)
 	head := fmt.Sprintf("forest %s route=%s massive=%v exts=%q\n", f, c.Route, c.Massive, c.Exts)
 	if dres.Infra != "" {
@@ -195,6 +204,9 @@ func c09Record(col *collector, c c09Case) {
 	if hostile {
 		cl = append(cl, "hostile-name")
 	}
+	if c.Missing {
+		cl = append(cl, "target-dir-does-not-exist-yet")
+	}
 	col.eval(d >= 1 && fl >= 1 || hostile, hash64(fmt.Sprint(c)), cl...)
 	col.sample(func() any { return map[string]any{"forest": c.Forest.String(), "route": c.Route, "massive": c.Massive, "exts": c.Exts} })
 }
@@ -228,6 +240,10 @@ func TestC09Random(t *testing.T) {
 			uniqRoots(f)
 		}
 		c := c09Case{Forest: f, Route: route, Massive: rapid.IntRange(0, 2).Draw(rt, "massive") == 0, Exts: genExts(f.Names()).Draw(rt, "exts")}
+		c.Missing = rapid.IntRange(0, 3).Draw(rt, "missingTarget") == 0
+		if route == "mkdir-root" && rapid.IntRange(0, 2).Draw(rt, "withPreOps") == 0 {
+			c.PreOps = rapid.SliceOfN(rapid.SampledFrom(preOpPool), 1, 2).Draw(rt, "preOps")
+		}
 		if k := c09Excluded(c); k != "" {
 			col.excluded(k)
 			return
@@ -260,7 +276,7 @@ func TestC09Exhaustive(t *testing.T) {
 			}
 			for _, r := range routes {
 				rot++
-				c := c09Case{Forest: f, Route: r, Exts: exts, Massive: rot%3 == 0}
+				c := c09Case{Forest: f, Route: r, Exts: exts, Massive: rot%3 == 0, Missing: rot%4 == 1}
 				c09Record(col, c)
 				if msg := c09Check(c); msg != "" {
 					violation(t, "C09", "c09", c, msg)
